@@ -1,6 +1,6 @@
 SPECIFICATION TSpec
 CONSTANTS
-  FIXED = FALSE
+  FIXED = TRUE
   CHECK_LEAKS = TRUE
 INVARIANTS RefsAreOwners HeadersAtBoundaries NormalIsBasic DeferredOrdered DeferOnlyAtEnd DecoderOnlyForNormal
 PROPERTIES EofStickyT
